@@ -650,6 +650,165 @@ for _m in (0, 1):
                     only=_only, fix={'method': _m, 'text?': _t, 'stream-kind': _sk, 'status': 0, 'custom-response-type?': 1})(asgi_tail)
 
 
+# --- ASGI: server-sent events ---------------------------------------------------------------------------------------------------------
+
+
+@stubclass
+class _SSEEvent:
+    def __init__(self, v, i):
+        self.v, self.i = v, i
+
+    def serialize(self, handler=None):
+        self.handler = handler
+        return self.v.bytes('sse_event_bytes')
+
+    def __pyvc_truth__(self):
+        return True
+
+
+@stubclass
+class _SSEEmitter:
+    """resp.sse: an async iterable of events; an item is an event, None (a keep-alive ping) or the emitter fails."""
+
+    def __init__(self, v):
+        self.v = v
+        self.n = v.int('sse_events', 0)
+        self.events = []
+
+    def __pyvc_seq__(self):
+        v = self.v
+
+        def item(i):
+            k = v.choose(3, 'sse-item')
+            if k == 2:
+                v.ctx.raise_py(StreamError, 'emitter failed')
+            if k == 1:
+                return None
+            e = _SSEEvent(v, i)
+            self.events.append(e)
+            return e
+
+        return FnSeq(self.n, item)
+
+    def __pyvc_truth__(self):
+        return True
+
+
+@stubclass
+class _Watcher:
+    """The task watching for the client's disconnect (asyncio.create_task): done at any moment, or not."""
+
+    def __init__(self, v):
+        self.v = v
+        self.cancelled = 0
+        self.awaited = 0
+
+    def done(self):
+        return self.v.choose(2, 'client-disconnected?') == 1
+
+    def cancel(self):
+        self.cancelled += 1
+        return True
+
+    def __pyvc_await__(self, interp):
+        import asyncio
+
+        self.awaited += 1
+        if self.cancelled and self.v.choose(2, 'watcher-was-still-running?') == 1:
+            self.v.ctx.raise_py(asyncio.CancelledError)
+        return None
+
+
+def _sse_setup(reg, ex):
+    import asyncio
+
+    import falcon.asgi.app as aapp
+
+    _asgi_setup(reg, ex)
+    key = ASGI + '.__call__'
+    reg.stubs[key + '.<locals>.watch_disconnect'] = lambda I: 'watch-disconnect-coroutine'
+    reg.add_model(aapp.isasyncgenfunction, lambda I, x: False)  # precondition (documented): resp.sse is an async ITERABLE, not a generator function
+
+    def create_task(I, coro, **kw):
+        I.ctx.check('%s#sse:the-watched-coroutine-is-the-disconnect-watcher' % key, coro == 'watch-disconnect-coroutine')
+        w = _Watcher(CUR_SSE['v'])
+        CUR_SSE['watcher'] = w
+        return w
+
+    reg.add_model(asyncio.create_task, create_task)
+
+    def M(L):
+        return L['send'].mon
+
+    # the SSE loop: the response has started, nothing final was sent, the connection is not known to be lost
+    reg.loops[(key, 'for event in sse_emitter')] = LoopSpec(name='sse-loop', inv=lambda L: And(M(L).state == 'STARTED', Not(M(L).lost)))
+
+
+CUR_SSE = {}
+
+
+@harness(PROP, ASGI + '.__call__', name='asgi_sse', inline=A_INLINE + ['falcon.asgi.structures:SSEvent.__init__', 'falcon.asgi.structures:SSEvent.serialize'],
+         setup=_sse_setup, fix={'method': 0, 'text?': 0, 'data?': 0, 'stream-kind': 0, 'status': 0, 'media?': 0, 'custom-response-type?': 0,
+                                'preset-content-length?': 0})
+def asgi_sse(v):
+    """resp.sse set: one response start announcing text/event-stream, every event as a body event with more_body True, one final body event without
+    more_body, nothing afterwards -- whether the emitter ends, the client disconnects (watcher done) or a keep-alive (None) is emitted."""
+    if v.concrete:
+        return
+    CUR_SSE.clear()
+    CUR_SSE['v'] = v
+    code = v.int('status_code', 100, 999)
+    v.assume(And(*[code != c for c in BODILESS]))
+    app, req, resp, info = mk_app(v, ASGI, ARESP, True, [200], 'GET')
+    v.set(resp, 'status_code', code)
+    em = _SSEEmitter(v)
+    v.set(resp, '_sse', em)
+    sse_handler = object()
+
+    @stubclass
+    class Handlers:
+        def _resolve(self_, media_type, default, raise_not_found=True):
+            self_.asked = (media_type, default, raise_not_found)
+            return (sse_handler, None, None)
+
+    hs = Handlers()
+    v.get(app, 'resp_options').media_handlers = hs
+    mon = SendMonitor(v)
+
+    @stubclass
+    class Send:
+        def __init__(self_):
+            self_.mon = mon
+
+        def __call__(self_, event):
+            mon.on_send(event)
+            return Ready(None)
+
+    @stubclass
+    class Receive:
+        def __call__(self_):
+            return Ready({'type': 'http.request', 'body': b'', 'more_body': False})
+
+    scope = {'type': 'http', 'asgi': {'version': '3.0', 'spec_version': '2.1'}, 'http_version': '1.1'}
+    out = v.call(app, scope, Receive(), Send())
+    if out.exc is not None:
+        v.check('only-server-or-stream-failures-escape', out.exc.isa(ServerLost) or out.exc.isa(StreamError))
+        v.cover('sse-failed')
+        return
+    v.check('session-complete-on-normal-return', mon.state == 'DONE')
+    _, media_type, hd = mon.start['headers']
+    v.check('sse-response-announces-text-event-stream', media_type == 'text/event-stream')
+    v.check('status-code-forwarded', mon.start['status'] is code or mon.start['status'] == code)
+    last = mon.body_events[-1] if mon.body_events else {'more_body': True}
+    v.check('sse-ends-with-one-final-body-event-without-more-body', not last.get('more_body', False) and _same(last.get('body', b''), b''))
+    v.check('only-the-last-body-event-has-more-body-false', all(e.get('more_body') is True for e in mon.body_events[:-1]))
+    w = CUR_SSE.get('watcher')
+    v.check('sse-disconnect-watcher-is-cancelled-and-awaited-before-returning', w is not None and w.cancelled == 1 and w.awaited == 1)
+    for e in em.events:
+        v.check('sse-events-are-serialized-with-the-json-handler-of-the-app', getattr(e, 'handler', sse_handler) is sse_handler)
+    v.cover('sse-finished')
+
+
 ASSUMPTIONS = [
     'str.encode() is an uninterpreted total function utf8_encode: str -> bytes (so Content-Length = len(utf8_encode(text)))',
     'WSGI: the server calls close() on the returned iterable (PEP 3333); falcon cannot enforce it',
@@ -665,7 +824,7 @@ ASSUMPTIONS = [
     'an explicitly set Content-Type is the concrete value "text/x-preset"; an explicitly set Content-Length is an arbitrary str',
 ]
 NOT_DECIDED = [
-    'SSE emission branch (asyncio task watching for disconnect) -- resp._sse is None in these harnesses',
+    'SSE: the text format of an event (SSEvent.serialize) is not specified by the statement; the disconnect watcher is a stub task (done at any moment)',
     'what a media handler writes: the rendered document is arbitrary bytes returned by a handler stub (C11 resolves, C12 serializes)',
     'cross products deliberately not taken (the restricted value is read at one place that cannot see the other dimension): resp.text holding BYTES is combined with '
     'stream none / file-like and media none / not-yet-rendered only (the other text kinds with every stream kind); with resp.text set the rendering cache state '
@@ -704,6 +863,10 @@ KILLS = [
     ('falcon/response.py', "                    handler, _, _ = self.options.media_handlers._resolve(\n                        self.content_type, self.options.default_media_type\n",
      "                    handler, _, _ = self.options.media_handlers._resolve(\n                        self.options.default_media_type, self.options.default_media_type\n",
      'media-handler-resolved-for-the-response-content-type'),
+    # SSE: an event sent as the final body event; the terminating event dropped
+    (_AAPP, "                        'body': event.serialize(sse_handler),\n                        'more_body': True,\n", "                        'body': event.serialize(sse_handler),\n", 'App.__call__#'),
+    (_AAPP, "            await send({'type': EventType.HTTP_RESPONSE_BODY})\n            return\n", "            return\n", 'session-complete-on-normal-return'),
+    (_AAPP, "                    'headers': resp._asgi_headers('text/event-stream'),\n", "                    'headers': resp._asgi_headers(default_media_type),\n", 'sse-response-announces-text-event-stream'),
     # eager close at the end of the stream although the server closes the iterable as well (PEP 3333): two close() calls
     ('falcon/app_helpers.py', "        if data == b'':\n            raise StopIteration\n", "        if data == b'':\n            self.close()\n            raise StopIteration\n",
      'stream-closed-exactly-once-over-the-life-of-the-iterator'),
